@@ -93,6 +93,19 @@ def run(tier, replay=None):
     ]
     out = vlib.outdir(PID)
     n = 0
+    # design model of the dispatcher's pointer discipline (and the sensitivity run that shows the model has teeth)
+    for copyfirst, expect_violation in (("TRUE", False), ("FALSE", True)):
+        cfgp = os.path.join(vlib.SPEC, "_gen_EventExec_%s.cfg" % copyfirst)
+        open(cfgp, "w").write("SPECIFICATION Spec\nCONSTANTS\n Cap0 = 2\n MaxCap = %d\n MaxWaiters = 3\n CopyFirst = %s\n"
+                              "INVARIANT NoStaleDeref\nCONSTRAINT Constr\nCHECK_DEADLOCK FALSE\n" % (8 if tier == "quick" else 32, copyfirst))
+        r = vlib.tlc(PID, "EventExec", os.path.basename(cfgp), timeout=600, tag="ee_" + copyfirst, workers=4, extra=["-noGenerateSpecTE"])
+        os.remove(cfgp)
+        if r.error:
+            raise vlib.MachineryError("EventExec model checking: " + r.error)
+        v.add_tlc(r, "EventExec.tla CopyFirst=%s: NoStaleDeref" % copyfirst)
+        if bool(r.violated) != expect_violation:
+            raise vlib.MachineryError("EventExec.tla CopyFirst=%s: expected %s, TLC says violated=%s"
+                                      % (copyfirst, "a violation" if expect_violation else "no violation", r.violated))
     for variant in ("rel", "san"):
         vlib.build_lib(PID, variant)
         evq = vlib.cc_harness(PID, variant, "evq_replay")
